@@ -40,7 +40,7 @@ m = {
     }],
     "checks": checks,
     "not_applicable": na,
-    "notes": "All checks rebuild their binary from /repo's current working tree (cargo path dependency via the committed symlink mc/subject -> /repo). Exit 0 = held on everything explored, 1 = VIOLATION line(s), 2 = machinery error (harness build failure, vacuity guard, engine fault). Known/fixed genuine defects: /verif/known_findings.json (four, each repaired by one unguarded `fix:` commit in /repo: e771f0a Angle::bisect, bedce0d InnerSpace::angle NaN, 8dfab34 Basis2::between_vectors, 1882b2b Quaternion::from_arc tolerance). The subject build is keyed on a content hash of /repo's Cargo.toml, build.rs and src/ (not on mtimes).",
+    "notes": "All checks rebuild their binary from /repo's current working tree (cargo path dependency via the committed symlink mc/subject -> /repo). Exit 0 = held on everything explored, 1 = VIOLATION line(s), 2 = machinery error (harness build failure, vacuity guard, engine fault). Known/fixed genuine defects: /verif/known_findings.json (five, each repaired by one unguarded `fix:` commit in /repo: e771f0a Angle::bisect, bedce0d InnerSpace::angle NaN, 8dfab34 Basis2::between_vectors, 1882b2b Quaternion::from_arc tolerance, ce0f648 Quaternion::from_arc default axis). The subject build is keyed on a content hash of /repo's Cargo.toml, build.rs and src/ (not on mtimes).",
 }
 json.dump(m, open(f"{V}/MANIFEST.json", "w"), indent=1)
 print(f"{len(checks)} checks, {len(na)} not yet claimed")
